@@ -230,7 +230,7 @@ def _run(ctx):
     ex = gen.TAG("div", {"k": "text", "s": "a"}, {"k": "tf", "ret": "list", "c": [{"k": "text", "s": "x"}, gen.TAG("b", ws=False)]}, {"k": "tf", "ret": "list", "c": []})
     ctx.sample({"recipe": ex, "output": gen.build(ex).render()["html"]})
     # 2. random trees
-    for _ in range(ctx.budget(1500, 150000)):
+    for _ in range(ctx.budget(1500, 900000)):
         ids = lg.Ids()
         d = rng.choice([1, 2, 3, 4, 5])
         if rng.random() < 0.25:
